@@ -27,9 +27,23 @@ Definition NAME_EVEN : bytes := [101; 118; 101; 110].         (* even *)
 Definition NAME_NOA : bytes := [110; 111; 97].                (* noa *)
 Definition NAME_U8 : bytes := [117; 56].                      (* u8 *)
 
-Definition cfun (name v : bytes) : bool :=
-  if beqb name NAME_LOWER then forallb is_lower v                 (* accepts "" *)
-  else if beqb name NAME_EVEN then Nat.even (length v)            (* not prefix closed *)
-  else if beqb name NAME_NOA then negb (match rev v with 97 :: _ => true | _ => false end)  (* does not end in 'a' *)
-  else if beqb name NAME_U8 then u8_ok v
+(* check function by registered TYPE name (std::any::type_name of the harness type) *)
+Definition TY_LOWER : bytes := [119;102;104;58;58;99;111;110;115;58;58;76;111;119;101;114].          (* wfh::cons::Lower *)
+Definition TY_LOWER2 : bytes := [119;102;104;58;58;99;111;110;115;58;58;76;111;119;101;114;50].      (* wfh::cons::Lower2 *)
+Definition TY_EVEN : bytes := [119;102;104;58;58;99;111;110;115;58;58;69;118;101;110].               (* wfh::cons::Even *)
+Definition TY_NOA : bytes := [119;102;104;58;58;99;111;110;115;58;58;78;111;65].                     (* wfh::cons::NoA *)
+
+Definition tfun (ty v : bytes) : bool :=
+  if beqb ty TY_LOWER then forallb is_lower v                 (* accepts "" *)
+  else if beqb ty TY_LOWER2 then true                         (* a different function under the name "lower" *)
+  else if beqb ty TY_EVEN then Nat.even (length v)            (* not prefix closed *)
+  else if beqb ty TY_NOA then negb (match rev v with 97 :: _ => true | _ => false end)  (* does not end in 'a' *)
+  else if beqb ty NAME_U8 then u8_ok v
   else false.
+
+(* the function in force for a constraint NAME, given the registrations (name, type name) *)
+Definition cfun_of (cons : list (bytes * bytes)) (name v : bytes) : bool :=
+  match List.find (fun nt : bytes * bytes => beqb (fst nt) name) cons with
+  | Some (_, ty) => tfun ty v
+  | None => false
+  end.
